@@ -219,6 +219,22 @@ def run_shard(sh, ctx):
 					if J.bits(got[j]) != exp:
 						ctx.violation('bulk-dist-bits', f'bulk distance via {cname}: {float(got[j])!r} expected bits {exp:#x} for s/u={su[0]}/{su[1]} (query {qdt}, references {rdt})',
 						              dict(query=q, ref=r, dtypes=[qdt, rdt], container=cname))
+			# one list-backed collection used as references, edited by the caller WITHOUT changing its length (reversed, an element
+			# replaced), and used again: every call answers for what the collection holds at that moment
+			hl, hm = SignatureList(list(rarrs), None, dtype=np.dtype(rdt)), [list(r_) for r_ in refs]
+			for stepi in range(3):
+				gh = gm.jaccarddist_array(qa, hl)
+				ctx.count('bulk_calls_on_a_list_edited_in_place')
+				for j, r in enumerate(hm):
+					exp = J.expected_bits(*J.dist_su(set(q), set(r)))
+					ctx.evals += 1
+					if J.bits(gh[j]) != exp:
+						ctx.violation('bulk-dist-bits', f'jaccarddist_array on a SignatureList after {stepi} same-length edit(s) (reverse, element replaced): position {j} = {float(gh[j])!r} expected bits {exp:#x}', dict(query=q, ref=r, edits=stepi, container='SignatureList edited in place')); break
+				if stepi == 0:
+					hl.reverse(); hm.reverse()
+				elif len(hm) >= 2:
+					hl[0] = np.array(hm[-1], dtype=rdt); hm[0] = list(hm[-1])
+					hl[len(hm) // 2] = np.array(q if (not q or max(q) <= M.maxval(rdt)) else hm[0], dtype=rdt); hm[len(hm) // 2] = list(q if (not q or max(q) <= M.maxval(rdt)) else hm[0])
 			# plain Python sequences whose elements have DIFFERENT widths, the narrow ones first, a later one holding values the first
 			# width cannot represent: all-against-all and one-against-all must still be the exact ratios
 			wide = sorted({x + shift for x in rng.sample(range(0, 60), 5)} | set(rng.sample(range(0, 60), 3)))
